@@ -167,7 +167,10 @@ def write_cfg(path, spec="Spec", constants=None, invariants=(), constraints=(), 
     if constants:
         lines.append("CONSTANTS")
         for k, v in constants.items():
-            lines.append("  %s = %s" % (k, v))
+            if isinstance(v, str) and v.startswith("<- "):
+                lines.append("  %s %s" % (k, v))
+            else:
+                lines.append("  %s = %s" % (k, v))
     for i in invariants:
         lines.append("INVARIANT %s" % i)
     for c in constraints:
